@@ -298,3 +298,41 @@ package websocket
 //@ ensures [backing] cap(sw.buf) == old(cap(sw.buf)) && gvcRegion(sw.buf) == old(gvcRegion(sw.buf)) && gvcOff(sw.buf) == old(gvcOff(sw.buf))
 //@ note [content] is proved for the two non-shifting paths (p at least as large as the window, or p fits in the free space); the shifting path (memmove of the retained suffix followed by append) needs case hints the solvers did not find within the time limit and is NOT proved
 //@ ensures [content] len(p) >= old(cap(sw.buf)) || old(len(sw.buf))+len(p) <= old(cap(sw.buf)) ==> forall(0, len(sw.buf), func(k int) bool { return sw.buf[k] == old(specCat(sw.buf, p, len(sw.buf)+len(p)-specMin(cap(sw.buf), len(sw.buf)+len(p))+k)) })
+
+// ---------------------------------------------------------------------------
+// Context takeover: which side's parameter governs which direction (C14, C02, C01;
+// oracle: RFC 7692 section 7.1.1 as specSenderNoTakeover / specReceiverNoTakeover)
+
+//@ func (*msgWriter).flateContextTakeover
+//@ tags C14 C02 C01
+//@ requires mw != nil && mw.c != nil && mw.c.copts != nil
+//@ ensures [sender-side] result == !specSenderNoTakeover(mw.c.client, mw.c.copts)
+
+//@ func (*msgReader).flateContextTakeover
+//@ tags C14 C03 C01
+//@ requires mr != nil && mr.c != nil && mr.c.copts != nil
+//@ ensures [receiver-side] result == !specReceiverNoTakeover(mr.c.client, mr.c.copts)
+
+// ---------------------------------------------------------------------------
+// read.go: read limit plumbing (C08)
+
+//@ func (*Conn).SetReadLimit
+//@ tags C08
+//@ requires c != nil && c.msgReader != nil && c.msgReader.limitReader != nil
+//@ modifies ghi64(&c.msgReader.limitReader.limit).val
+//@ ensures [armed] ghi64(&c.msgReader.limitReader.limit).val == specArmedLimit(n)
+
+//@ func (*limitReader).reset
+//@ tags C08
+//@ requires lr != nil
+//@ modifies lr.n, lr.r
+//@ ensures [reload] lr.n == ghi64(&lr.limit).val && lr.r == r
+
+//@ func newLimitReader
+//@ tags C08
+//@ ensures [init] result != nil && gvcFresh(result) && result.c == c && result.n == limit && ghi64(&result.limit).val == limit && result.r == r
+
+//@ func newMsgReader
+//@ tags C08 C03
+//@ ensures [init] result != nil && gvcFresh(result) && result.c == c && result.fin && result.payloadLength == 0 && !result.flate
+//@ ensures [default-limit] result.limitReader != nil && result.limitReader.c == c && result.limitReader.n == specArmedLimit(specDefaultReadLimit) && ghi64(&result.limitReader.limit).val == specArmedLimit(specDefaultReadLimit)
